@@ -319,7 +319,11 @@ impl Node {
     fn find_include_nodes(&self, collect: &mut Vec<IncludeStatement>, num: usize) {
         for item in self.iter_children() {
             if let Some(node) = item.as_node() {
-                if let Some(include) = typed::Include::cast(item) {
+                // a malformed include (no path) was already reported by the parser;
+                // it cannot be resolved, so don't hand it to the include machinery
+                if let Some(include) =
+                    typed::Include::cast(item).filter(|inc| inc.find_token(Kind::Path).is_some())
+                {
                     collect.push(IncludeStatement {
                         stmt: include,
                         scope: self.kind,
